@@ -5,6 +5,8 @@ from collections.abc import Sequence
 from .utils import Identification, Unidentifiable
 from ...dsl import Expression, P, Probability, Product, Sum, Variable
 from ...graph import NxMixedGraph
+from ..._verif import ON as _VERIF_ON
+from ..._verif import trace as _trace
 
 __all__ = [
     "identify",
@@ -28,22 +30,30 @@ def identify(identification: Identification) -> Expression:
 
     # line 1
     if not treatments:
+        if _VERIF_ON:
+            _trace("id.line1", n_nodes=len(vertices))
         return line_1(identification)
 
     # line 2
     outcomes_and_ancestors = graph.ancestors_inclusive(outcomes)
     not_outcomes_or_ancestors = vertices.difference(outcomes_and_ancestors)
     if not_outcomes_or_ancestors:
+        if _VERIF_ON:
+            _trace("id.line2", n_nodes=len(vertices))
         return identify(line_2(identification))
 
     # line 3
     no_effect_on_outcome = graph.get_no_effect_on_outcomes(treatments, outcomes)
     if no_effect_on_outcome:
+        if _VERIF_ON:
+            _trace("id.line3", n_nodes=len(vertices))
         return identify(line_3(identification))
 
     # line 4
     graph_without_treatments = graph.remove_nodes_from(treatments)
     if not graph_without_treatments.is_connected():
+        if _VERIF_ON:
+            _trace("id.line4", n_factors=len(graph_without_treatments.districts()))
         expression = Product.safe(map(identify, line_4(identification)))
         return Sum.safe(
             expression=expression,
@@ -52,12 +62,20 @@ def identify(identification: Identification) -> Expression:
 
     # line 5
     if graph.is_connected():  # e.g., there's only 1 c-component, and it encompasses all vertices
+        if _VERIF_ON:
+            _trace("id.line5.fail", n_nodes=len(vertices))
         raise Unidentifiable(graph.nodes(), graph_without_treatments.districts())
 
     # line 6
     district_without_treatment = _get_single_district(graph_without_treatments)
 
     if district_without_treatment in graph.districts():
+        if _VERIF_ON:
+            _trace(
+                "id.line6",
+                estimand=identification.estimand,
+                n_nodes=len(vertices),
+            )
         parents = list(graph.topological_sort())
         expression = Product.safe(p_parents(v, parents) for v in district_without_treatment)
         ranges = district_without_treatment - outcomes
@@ -67,6 +85,12 @@ def identify(identification: Identification) -> Expression:
         )
 
     # line 7
+    if _VERIF_ON:
+        _trace(
+            "id.line7",
+            estimand=identification.estimand,
+            n_nodes=len(vertices),
+        )
     return identify(line_7(identification))
 
 
